@@ -152,8 +152,6 @@ class ContentElement:
       if self.parent() is not None:
         raise RuntimeError("Element must be removed from parent first")
 
-      self.set_region(None)
-
     else:
 
       # attaching
@@ -162,10 +160,14 @@ class ContentElement:
         if e.is_attached():
           raise RuntimeError("Element must be detached first")
 
-    self._doc = doc
+    # pylint: disable=W0212
 
-    for e in self:
-      e.set_doc(doc)
+    for e in self.dfs_iterator():
+      if doc is None:
+        e._region = None
+      e._doc = doc
+
+    # pylint: enable=W0212
 
   # hierarchical structure
 
